@@ -910,6 +910,6 @@ func TestC13(t *testing.T) {
 			ev.Direct(rec, "hostile", h, runHostile)
 		}
 	}
-	ev.Check(t, rec, "stream", rec.Pick(5000, 32000), genCase, runCase)
-	ev.Check(t, rec, "hostile", rec.Pick(1500, 8000), genHCase, runHostile)
+	ev.Check(t, rec, "stream", rec.Pick(7500, 32000), genCase, runCase)
+	ev.Check(t, rec, "hostile", rec.Pick(2000, 8000), genHCase, runHostile)
 }
